@@ -353,14 +353,14 @@ ALL = ['C%02d' % i for i in range(1, 21)]
 EXTRA = {
     'C02': ('capacity provenance of the vote counter; provenance of the '
             'label list indexed by the ranking; None-test guard of the '
-            'correlation inheritance; zip lock-step; parameter forwarding along the call chain',
+            'correlation inheritance; zip lock-step; parameter forwarding along the call chain; sign analysis of the centroid denominators',
             'Also decides: the integer type of the vote counter is sized '
             'from the iteration count of the loop that increments it; the '
             'label list the ranking is translated with is the caller\'s or '
             'the one returned with the aggregated votes; the average '
             'correlation of a voted level is replaced only under an `is '
             'None` test; neighbour and correlation lists are zipped in '
-            'lock-step; zero norms are replaced on a test of the norm. Settings the property depends on are bound at every call whose callee would otherwise fall back to a default.'),
+            'lock-step; zero norms are replaced on a test of the norm. Settings the property depends on are bound at every call whose callee would otherwise fall back to a default. The centroids voted on divide by a cell count floored at one.'),
     'C04': ('shared random stream modelled as an order-sensitive '
             'accumulator; parameter forwarding along the call chain',
             'Also: a draw from a shared generator inside a loop whose '
@@ -371,65 +371,65 @@ EXTRA = {
             'selecting a loop element under a test in a labelled loop '
             'labels the selection. Settings the property depends on are bound at every call whose callee would otherwise fall back to a default.'),
     'C05': ('write-cursor discipline, loop-coverage must-pass, exact '
-            'tiling of chunked loops, index-space typing of numpy code; permutation pairing of sorted reads; parameter forwarding along the call chain',
+            'tiling of chunked loops, index-space typing of numpy code; permutation pairing of sorted reads; parameter forwarding along the call chain; request-order dependence of the readers',
             'Also decides: write cursors of the assembly loops are used, '
             'advanced and recorded in every iteration; chunked loops tile '
             'their axis (window = step, clamp = bound, step and bound on '
             'the same axis); in the transposition, slices and gathers are '
             'applied in the index space they were computed in; pointer '
-            'values are never scatter positions. Rows read in sorted order are put back with the matching permutation, once, and before every return. Settings the property depends on are bound at every call whose callee would otherwise fall back to a default.'),
+            'values are never scatter positions. Rows read in sorted order are put back with the matching permutation, once, and before every return. Settings the property depends on are bound at every call whose callee would otherwise fall back to a default. A reader answers from the requested row list itself, not only from its sorted / merged form.'),
     'C07': ('ordering-key provenance; column-gather detection on symbolic '
-            'terms; parameter forwarding along the call chain',
+            'terms; parameter forwarding along the call chain; dtype idioms of the normalisation',
             'Also decides: no ordering step on the way to the per-parent '
             'index arrays of the marker cache depends on query positions; '
             'the array normalised in the chunk loops has not been cut by '
-            'column; the CPM divisor replaces zero totals only. Settings the property depends on are bound at every call whose callee would otherwise fall back to a default. (in particular the declared normalization).'),
-    'C08': ('iteration-order provenance of the in-place patching loop; index capacity typing; parameter forwarding along the call chain',
+            'column; the CPM divisor replaces zero totals only. Settings the property depends on are bound at every call whose callee would otherwise fall back to a default. (in particular the declared normalization). Normalised values are not cast to, or stored in place into, the element type of the raw counts.'),
+    'C08': ('iteration-order provenance of the in-place patching loop; index capacity typing; parameter forwarding along the call chain; guard census of empty-list rejections',
             'Also decides: parents are patched deepest first; the '
             'unknown-to-reference test is made on the unfiltered marker '
-            'table. Gene positions stored with an explicitly chosen integer type are sized from the list they point into. Settings the property depends on are bound at every call whose callee would otherwise fall back to a default.'),
+            'table. Gene positions stored with an explicitly chosen integer type are sized from the list they point into. Settings the property depends on are bound at every call whose callee would otherwise fall back to a default. A rejection for an empty marker list also looks at the number of children.'),
     'C09': ('loop-coverage must-pass, merge initial value, guard form, '
-            'exact tiling; key-space agreement of the dataset tables; parameter forwarding along the call chain',
+            'exact tiling; key-space agreement of the dataset tables; parameter forwarding along the call chain; dtype idioms of the statistics',
             'Also decides: every chunk reaches _process_chunk; merged '
             'tables start from zeros; files are compared by gene sequence '
             'before column-wise addition; chunk windows tile the rows; '
             'per-file state of a worker is refreshed on a test of the '
             'file; files merged by position are compared on their '
-            'complete numbering tables. The ABC front end keys its dataset tables by the label as given. Settings the property depends on are bound at every call whose callee would otherwise fall back to a default.'),
-    'C10': ('loop-coverage must-pass in the tree builder; must-derive of the leaf pairs',
+            'complete numbering tables. The ABC front end keys its dataset tables by the label as given. Settings the property depends on are bound at every call whose callee would otherwise fall back to a default. Sums and CPM denominators are not cast back to the element type of the raw counts.'),
+    'C10': ('loop-coverage must-pass in the tree builder; must-derive of the leaf pairs; row-position provenance of the h5ad tree builder',
             'Also decides: the builder records every parent-child link of '
             'every row before validation (no early exit); tables filled '
             'in loops over the levels are keyed by (level, label); memo '
             'keys are complete; zipped lists are in lock-step; the '
-            'release term-table reader records every row. leaves_to_compare answers through get_all_leaf_pairs or a short-cut tested on the parent\'s own children.'),
-    'C13': ('write-cursor discipline, index-space typing, exact tiling; permutation pairing of sorted reads',
+            'release term-table reader records every row. leaves_to_compare answers through get_all_leaf_pairs or a short-cut tested on the parent\'s own children. The rows numbered when a tree is built from an h5ad file are the obs rows as read.'),
+    'C13': ('write-cursor discipline, index-space typing, exact tiling; permutation pairing of sorted reads; memo-key completeness of cached readers; HDF5 name typestate',
             'Also decides: cursor discipline of the join / amalgamation '
             'loops, index spaces of the transposition, tiling of all '
-            'chunked loops in the anchored modules. Sorted row reads are un-sorted before every return.'),
+            'chunked loops in the anchored modules. Sorted row reads are un-sorted before every return. A cached reader is keyed by everything it was built from; no HDF5 name is created twice in a group.'),
     'C15': ('producer/consumer agreement of CSV column names, '
-            'loop-coverage; shared-mutable idiom',
+            'loop-coverage; shared-mutable idiom; memo-key completeness of name look-ups',
             'Also decides: the confidence-column rename spells names as '
             'blob_to_df builds them; every cell gets a CSV row; name '
             'lookups are keyed by (level, label); the CSV is written '
-            'with the stored tree. No per-level table is built from one shared mutable object.'),
-    'C16': ('exact tiling of the scanning loops, lookup provenance; must-pass-through of the mapper call; parameter forwarding along the call chain',
+            'with the stored tree. No per-level table is built from one shared mutable object. Readable names memoised on the tree are keyed by level as well as label.'),
+    'C16': ('exact tiling of the scanning loops, lookup provenance; must-pass-through of the mapper call; parameter forwarding along the call chain; abs-of-extremum idiom; HDF5 name typestate',
             'Also decides: min/max, integrality and rounding scans tile '
             'their matrix exactly; gene identifiers are looked up as '
             'given and clipped afterwards; every window of a rounding '
-            'loop is written. Every verdict of the gene renaming step is given after the mapper was consulted. Settings the property depends on are bound at every call whose callee would otherwise fall back to a default.'),
-    'C17': ('back-fill provenance (shared with C01); parameter forwarding along the call chain',
+            'loop is written. Every verdict of the gene renaming step is given after the mapper was consulted. Settings the property depends on are bound at every call whose callee would otherwise fall back to a default. Integrality tests take the largest absolute deviation; no HDF5 name is created twice in a group (finding F8).'),
+    'C17': ('back-fill provenance (shared with C01); parameter forwarding along the call chain; tree / parent-list agreement',
             'Also decides: the dropped level is back-filled through the '
             'parent table of that level; node tables are keyed by (level, '
-            'label); zipped lists are in lock-step. Settings the property depends on are bound at every call whose callee would otherwise fall back to a default.'),
+            'label); zipped lists are in lock-step. Settings the property depends on are bound at every call whose callee would otherwise fall back to a default. A selection call receives parents listed from the very tree it is given.'),
     'C18': ('sign analysis of cell-count denominators; merge rules shared '
-            'with C09; parameter forwarding along the call chain',
+            'with C09; parameter forwarding along the call chain; gene-list rule shared with C11',
             'Also decides: no division by a possibly-zero cell count; '
-            'worker buffers are each added once. Settings the property depends on are bound at every call whose callee would otherwise fall back to a default.'),
+            'worker buffers are each added once. Settings the property depends on are bound at every call whose callee would otherwise fall back to a default. The gene list a later stage hands to the reference-marker stage becomes positions of the reference gene table.'),
     'C19': ('library-level freshness of listed directories and scratch '
-            'file names; parameter forwarding along the call chain',
+            'file names; parameter forwarding along the call chain; existence-test order of the statistics-file search',
             'Also decides, per function: a listed directory was created '
             'under a unique name by the lister (or handed over whole); no '
-            'predictable file name directly under a scratch parameter. Settings the property depends on are bound at every call whose callee would otherwise fall back to a default. (two documented exceptions where a callee creates its own scratch directory).'),
+            'predictable file name directly under a scratch parameter. Settings the property depends on are bound at every call whose callee would otherwise fall back to a default. (two documented exceptions where a callee creates its own scratch directory). The recorded statistics path is tried before a same-named file beside the marker file.'),
     'C20': ('value identity inside the sanitiser; ancestor walk of the '
             'exposure test; exception rendering of path-bearing messages; parameter forwarding along the call chain',
             'Also decides: the replaced text is the word as it occurs, '
@@ -441,6 +441,8 @@ EXTRA = {
             'Settings the property depends on are bound at every call whose callee would otherwise fall back to a default.'),
     'C14': ('parameter forwarding along the call chain',
             'Settings the property depends on are bound at every call whose callee would otherwise fall back to a default.'),
+    'C06': ('cell-axis reduction scan of the glue code',
+            'Between chunk arrival and kernel the query matrix is never reduced along the cell axis.'),
 }
 
 
